@@ -87,6 +87,10 @@ type scanner struct {
 	lengthComputing bool
 
 	hasTrailingCharacters bool
+
+	// slashFound a sign that the first slash of an annotation has been read,
+	// but not the second character (`/` or `*`).
+	slashFound bool
 }
 
 func newScanner(file *fs.File, oo ...scannerOption) *scanner {
@@ -190,6 +194,13 @@ func (s *scanner) Next() (lexeme.LexEvent, error) {
 }
 
 func (s *scanner) processTail() (lexeme.LexEvent, error) {
+	if s.slashFound && !s.lengthComputing {
+		// The data ends with a lone slash, example: "[1] /".
+		err := kit.NewJSchemaError(s.file, errs.ErrUnexpectedEOF.F())
+		err.SetIndex(s.dataSize - 1)
+		return lexeme.LexEvent{}, err
+	}
+
 	if s.stack.Len() == 0 {
 		return lexeme.LexEvent{}, errEOS
 	}
@@ -675,6 +686,7 @@ func (s *scanner) stateNul(c byte) (state, error) {
 }
 
 func (s *scanner) stateAnyAnnotationStart(c byte) (st state, err error) {
+	s.slashFound = false
 	switch c {
 	case '/':
 		s.annotation = true
@@ -827,5 +839,6 @@ func (s *scanner) switchToAnnotation() error {
 	}
 	s.returnToStep.Push(s.step)
 	s.step = s.stateAnyAnnotationStart
+	s.slashFound = true
 	return nil
 }
